@@ -44,6 +44,11 @@ def cases(tier, rng):
             cfg = cards.rand_config(rng, process=cards.pick(rng, ["NC", "EM"]), ptos=ptos if (i // 4) % 3 else (3,), sv=True,
                                     schemes=None if (i // 4) % 3 else ["ZM-VFNS", "FFN0", "FONLL-FFN0"])  # fmt: skip
         g = cards.rand_grid(rng)
+        if fam in ("ffns", "fonll", "zm") and i % 3 == 1:
+            # the partitions must survive target-mass corrections (which integrate the structure functions over [xi,1])
+            cfg["theory"].update(TMC=int(cards.pick(rng, [1, 3, 2])), MP=float(rng.uniform(0.5, 1.5)), PTO=min(cfg["theory"]["PTO"], 2))
+            cfg["theory"]["PTODIS"] = cfg["theory"]["PTO"]
+            cfg["kinds"] = [k_ for k_ in cfg["kinds"] if k_ in ("F2", "FL", "F3", "g1")]
         kind = cards.pick(rng, cfg["kinds"])
         if fam == "pos" and cfg["theory"]["PTO"] == 3:
             kind = cards.pick(rng, ["F2", "FL"])  # the only kinds with fl11 diagrams
@@ -52,6 +57,10 @@ def cases(tier, rng):
         if rng.random() < 0.4:
             cfg["obs"]["TargetDIS"] = cards.pick(rng, ["neutron", "isoscalar", "iron", {"Z": float(rng.uniform(0, 3)), "A": 3.0}])
         pts = cards.rand_points(rng, g["xgrid"], n=2, q2lo=3.0, q2hi=3e3)
+        if cfg["theory"].get("TMC"):
+            for p_ in pts:
+                p_["x"] = float(max(p_["x"], min(0.45, g["xgrid"][1] * 2.5)))
+                p_["Q2"] = cards.logu(rng, 3.0, 60.0)
         heavy = cards.pick(rng, ["total", "light", "charm", "bottom"]) if fam in ("fonll", "pos") else None
         if fam == "pos" and cfg["theory"]["PTO"] == 3:
             heavy = cards.pick(rng, ["total", "light"])
@@ -68,7 +77,7 @@ def run_case(case):
     compared = 0
     margin = 0.0
     sample = None
-    tcls = "proton" if "TargetDIS" not in case["obs"] else "nuclear"
+    tcls = ("proton" if "TargetDIS" not in case["obs"] else "nuclear") + ("+tmc" if th.get("TMC") else "")
     cell = f"{fam}|{kind}|{case['obs']['prDIS']}|{th['FNS']}|NfFF{th['NfFF']}|pto{th['PTODIS']}|{tcls}"
 
     def mkobs(names, **kw):
